@@ -99,6 +99,12 @@ func (e *CodecErr) FromJSONRPCError(j jsonrpc.JSONRPCError) error {
 		if !ok {
 			return fmt.Errorf("unexpected data %T", j.Data)
 		}
+		// numeric detail is read the way application code reads a decoded interface{}: as float64
+		if v, present := d["n"]; present {
+			if _, isFloat := v.(float64); !isFloat {
+				return fmt.Errorf("data.n arrived as %T, expected float64", v)
+			}
+		}
 		e.Data = d
 	}
 	return nil
@@ -220,10 +226,11 @@ func c11Table(name string, server bool) *jsonrpc.Errors {
 var c11TableNames = []string{"same", "client-only", "server-only", "disjoint", "swapped", "none"}
 
 type ErrAPI struct {
-	mu    sync.Mutex
-	next  error
-	runs  int
-	byKey map[string]error
+	mu      sync.Mutex
+	next    error
+	runs    int
+	byKey   map[string]error
+	started chan string
 }
 
 func (a *ErrAPI) E(ctx context.Context) error {
@@ -251,7 +258,28 @@ func (a *ErrAPI) VEK(ctx context.Context, key string) (int, error) {
 	return 7, a.byKey[key]
 }
 
+// EC waits until its context is cancelled (the caller cancelled the call) and then returns the error deposited
+// under key: a handler reacting to cancellation with an error of its own.
+func (a *ErrAPI) EC(ctx context.Context, key string) error {
+	a.mu.Lock()
+	if a.started != nil {
+		select {
+		case a.started <- key:
+		default:
+		}
+	}
+	a.mu.Unlock()
+	select {
+	case <-ctx.Done():
+	case <-time.After(5 * time.Second):
+	}
+	a.mu.Lock()
+	defer a.mu.Unlock()
+	return a.byKey[key]
+}
+
 type c11Client struct {
+	EC  func(ctx context.Context, key string) error
 	E   func(ctx context.Context) error
 	VE  func(ctx context.Context) (int, error)
 	EK  func(ctx context.Context, key string) error
@@ -332,8 +360,9 @@ type c11Case struct {
 	Num       int64           `json:"num,omitempty"`
 	Detail    []string        `json:"detail,omitempty"`
 	Nested    *Inner          `json:"nested,omitempty"`
-	Data      json.RawMessage `json:"data,omitempty"` // codec data (object) or null
-	Code      int             `json:"code,omitempty"` // codec: self-supplied code (0 = the registered one)
+	Data      json.RawMessage `json:"data,omitempty"`      // codec data (object) or null
+	Code      int             `json:"code,omitempty"`      // codec: self-supplied code (0 = the registered one)
+	Cancelled bool            `json:"cancelled,omitempty"` // the caller cancels the running call; the handler then returns the error (ws)
 }
 
 func (c c11Case) build() error {
@@ -523,6 +552,64 @@ func c11Judge(c c11Case, herr, got error, val int) *Violation {
 	return nil
 }
 
+// runCancelled: the caller cancels a running call; the handler answers the cancellation with the case's error, which
+// must reach the caller (who, over WebSocket, keeps waiting for the answer) as intact as any other handler error.
+func (e *c11Env) runCancelled(c c11Case) *Violation {
+	e.mu.Lock()
+	defer e.mu.Unlock()
+	ep := e.eps[c.Table]
+	if ep == nil || ep.clients["ws"] == nil {
+		return nil
+	}
+	c.Transport, c.Shape = "ws", "E"
+	herr := c.build()
+	started := make(chan string, 1)
+	ep.api.mu.Lock()
+	ep.api.byKey = map[string]error{"kc": herr}
+	ep.api.started = started
+	ep.api.mu.Unlock()
+	defer func() {
+		ep.api.mu.Lock()
+		ep.api.started = nil
+		ep.api.mu.Unlock()
+	}()
+	ctx, cancel := context.WithCancel(context.Background())
+	defer cancel()
+	type out struct {
+		err error
+		pan interface{}
+	}
+	done := make(chan out, 1)
+	go func() {
+		var o out
+		defer func() {
+			o.pan = recover()
+			done <- o
+		}()
+		o.err = ep.clients["ws"].EC(ctx, "kc")
+	}()
+	select {
+	case <-started:
+	case <-time.After(3 * time.Second):
+		return nil
+	}
+	cancel()
+	var o out
+	select {
+	case o = <-done:
+	case <-time.After(5 * time.Second):
+		return violf("cancelled-call-hangs", "a call cancelled while running did not return although its handler answered the cancellation")
+	}
+	if o.pan != nil {
+		return violf("client-panic", "client panicked converting the error: %v", o.pan)
+	}
+	v := c11Judge(c, herr, o.err, 0)
+	if v != nil {
+		v.Msg = "after the caller cancelled the running call and the handler answered with its own error: " + v.Msg
+	}
+	return v
+}
+
 // c11Conc: several callers use the same proxy function at the same time, each provoking a different error (or none).
 type c11Conc struct {
 	Table     string    `json:"table"`
@@ -647,12 +734,12 @@ func c11NT(c c11Case) (bool, []string) {
 	return nt, cl
 }
 
-const c11Rule = "error value kinds {nil, plain value, unregistered pointer to plain, pointer-plain, marshalable pointer, marshalable value-registered, codec, failing unmarshal, failing codec, stdlib, wrapped} with generated messages (valid UTF-8 incl. empty/escape-heavy) and fields x registration tables {same, client-only, server-only, disjoint codes, swapped types, none} x {error, (value,error)} x {ws, http, custom}; complete grid of kind x table x shape x transport plus rapid-generated content; 2-8 concurrent callers of one client function, each provoking its own error kind (or none) for 5-400 rounds. Non-trivial = a non-nil error with a registration table in play or a non-ASCII/empty message; distinct by descriptor hash"
+const c11Rule = "error value kinds {nil, plain value, unregistered pointer to plain, pointer-plain, marshalable pointer, marshalable value-registered, codec, failing unmarshal, failing codec, stdlib, wrapped} with generated messages (valid UTF-8 incl. empty/escape-heavy) and fields x registration tables {same, client-only, server-only, disjoint codes, swapped types, none} x {error, (value,error)} x {ws, http, custom}; complete grid of kind x table x shape x transport plus rapid-generated content; 2-8 concurrent callers of one client function, each provoking its own error kind (or none) for 5-400 rounds; calls cancelled by their caller while running whose handler answers the cancellation with an error of each kind (ws). Non-trivial = a non-nil error with a registration table in play or a non-ASCII/empty message; distinct by descriptor hash"
 
 func TestC11(t *testing.T) {
 	rec := NewRec("C11", c11Rule)
 	defer rec.Finish(t)
-	rec.RequireClass("concurrent_callers", "table_same", "table_disjoint", "table_swapped", "table_client-only", "table_server-only", "kind_meta", "kind_codec", "kind_failmeta", "kind_failcodec", "empty_message", "shape_VE")
+	rec.RequireClass("error_after_cancel", "concurrent_callers", "table_same", "table_disjoint", "table_swapped", "table_client-only", "table_server-only", "kind_meta", "kind_codec", "kind_failmeta", "kind_failcodec", "empty_message", "shape_VE")
 	env, err := newC11Env()
 	if err != nil {
 		t.Fatalf("env: %v", err)
@@ -665,7 +752,7 @@ func TestC11(t *testing.T) {
 				for _, sh := range []string{"E", "VE"} {
 					for _, tr := range c01Transports {
 						for _, msg := range []string{"boom", "", "<é>\n\"q\""} {
-							c := c11Case{Table: tn, Transport: tr, Shape: sh, Kind: k, Msg: msg, Num: -5, Detail: []string{"d"}, Data: json.RawMessage(`{"k":[1,"x"]}`)}
+							c := c11Case{Table: tn, Transport: tr, Shape: sh, Kind: k, Msg: msg, Num: -5, Detail: []string{"d"}, Data: json.RawMessage(`{"k":[1,"x"],"n":2}`)}
 							nt, cl := c11NT(c)
 							rec.Run(t, c, nt, cl, func() *Violation { return env.run(c) })
 						}
@@ -674,6 +761,15 @@ func TestC11(t *testing.T) {
 			}
 		}
 		rec.Exhaustive(false)
+	})
+	t.Run("cancelled", func(t *testing.T) {
+		for _, tn := range c11TableNames {
+			for _, k := range c11Kinds {
+				c := c11Case{Table: tn, Transport: "ws", Shape: "E", Kind: k, Msg: "after-cancel", Num: 3, Data: json.RawMessage(`{"n":7}`), Cancelled: true}
+				nt, cl := c11NT(c)
+				rec.Run(t, c, nt, append(cl, "error_after_cancel"), func() *Violation { return env.runCancelled(c) })
+			}
+		}
 	})
 	t.Run("concurrent", func(t *testing.T) {
 		for _, tr := range c01Transports {
@@ -701,6 +797,11 @@ func TestC11(t *testing.T) {
 		}
 		c := genC11(rt)
 		nt, cl := c11NT(c)
+		if c.Kind != "nil" && rapid.IntRange(0, 14).Draw(rt, "cancelled") == 0 {
+			c.Cancelled, c.Transport, c.Shape = true, "ws", "E"
+			rec.Run(rt, c, nt, append(cl, "error_after_cancel"), func() *Violation { return env.runCancelled(c) })
+			return
+		}
 		rec.Run(rt, c, nt, cl, func() *Violation { return env.run(c) })
 	})
 }
@@ -724,6 +825,9 @@ func TestC11Replay(t *testing.T) {
 		var c c11Case
 		if err := json.Unmarshal(raw, &c); err != nil {
 			return nil
+		}
+		if c.Cancelled {
+			return env.runCancelled(c)
 		}
 		return env.run(c)
 	})
